@@ -271,7 +271,7 @@ def clearCell (c : CellV) : CellV := { c with t := "", v := "", is := none, f :=
 /-! ### operations -/
 
 inductive Res
-  | ok | err | style (n : Nat) | cell (c : Option Cell)
+  | ok | err | style (n : Nat) | cell (c : Option Cell) | merges (l : List MObj)
   deriving DecidableEq, Repr
 
 /-- `ws.prepareCell(cell)` followed by an update of the returned `*xlsxC` -/
@@ -354,9 +354,16 @@ def unmergeCell (s : Sheet) (c1 r1 c2 r2 : Nat) : Sheet × Res :=
   if s.merges.isEmpty then (s, .ok) else
   ({ s with merges := (mergeOverlapCells s.merges).filter fun m => !isOverlap q m.ref }, .ok)
 
-/-- the normalisation `GetMergeCells` performs before reporting -/
+/-- what `GetMergeCells` reports: the normalisation of a *copy* of the merge list -/
+def reported (s : Sheet) : List MObj := mergeOverlapCells s.merges
+
+/-- `GetMergeCells` reports the normalised ranges. Whether the normalisation also replaces the worksheet's
+own list is read from the source (fact `getMergeCellsInPlace`: `mergeOverlapCells(ws)` vs. a copy): with a
+copy the call is a pure observation and the stored list may stay un-normalised until `UnmergeCell` or a
+save normalise it. -/
 def getMerges (s : Sheet) : Sheet × Res :=
-  if s.merges.isEmpty then (s, .ok) else ({ s with merges := mergeOverlapCells s.merges }, .ok)
+  if Facts.C03.getMergeCellsInPlace then ({ s with merges := reported s }, .merges (reported s))
+  else (s, .merges (reported s))
 
 inductive Op
   | set (k : Setter) (c r : Nat) (p : Payload)
@@ -435,7 +442,9 @@ def step (s : Sheet) : Op → Sheet × Res
       let q := sortRect c1 r1 c2 r2
       if s.merges.isEmpty then (s, .ok) else
       ({ s with merges := (mergeOverlapCells s.merges).filter fun m => !isOverlap q m.ref }, .ok)
-  | .getMerges => if s.merges.isEmpty then (s, .ok) else ({ s with merges := mergeOverlapCells s.merges }, .ok)
+  | .getMerges =>
+      if Facts.C03.getMergeCellsInPlace then ({ s with merges := mergeOverlapCells s.merges }, .merges (mergeOverlapCells s.merges))
+      else (s, .merges (mergeOverlapCells s.merges))
 
 def run (s : Sheet) (ops : List Op) : Sheet := ops.foldl (fun s o => (step s o).1) s
 
